@@ -76,8 +76,74 @@ def run_into(rep, prop, tier, seed):
     if prop == "C14":
         from harness.checks import c14_extra
         c14_extra.run(rep, tier, seed)
+    if prop == "C15":
+        oneshot_entry_points(rep, tier, wd)
     rep.assumptions += ["family: P (plain nested), Inner (dialect support), C (nested, list of nested, plain nested, aliased Optional), S < C; dialects D1 (strategy), D2 (omit_none+by_alias), D3 (strategy+omit_none)",
                         "the twin of a family under D gives every class reached through dialect-enabled classes the default dialect Layer(D, own) (DESIGN.md 6 C13)"]
+
+
+def oneshot_entry_points(rep, tier, wd):
+    """C15: the one-shot encode()/decode() functions, the codec objects, elementwise use inside List[...] and use as a
+    dataclass field agree -- for every ordered union / literal shape of MC_C11 (so equal-but-reordered shapes follow each
+    other in ONE process: creating a codec for one shape must not change what another shape does)."""
+    from harness.real import BasicDecoder, BasicEncoder, Subject, abstract_exception
+    from harness.core import norm_err
+    from harness.terms import abstract_value, canon, concretize_value, terms_equal, wire_match
+    from mashumaro.codecs.basic import decode as oneshot_decode, encode as oneshot_encode
+    import typing
+    r = core.run_mc("MC_C11", wd, cfg=core.cfg_text("MC_C11.cfg", MaxMembers=2), rep=rep,
+                    label="MC_C11 (MaxMembers=2) as the shape universe for the entry-point comparison")
+    recs = [p for p in r.printed if p[1][0] != "dc"]
+    if tier == "quick":
+        recs = recs[::2]
+    n = 0
+    subjects = {}
+    try:
+        for p in recs:
+            T = p[1]
+            k = jkey(T)
+            if k not in subjects:
+                subjects[k] = Subject(T)
+            sj = subjects[k]
+            n += 1
+            if p[0] == "vec":
+                x = concretize_value(p[2], sj.reg)
+                outs = {}
+                for name, fn in (("one-shot encode()", lambda: oneshot_encode(x, sj.ann)),
+                                 ("BasicEncoder", lambda: BasicEncoder(sj.ann).encode(x)),
+                                 ("BasicEncoder(List[T])[0]", lambda: BasicEncoder(list[sj.ann]).encode([x])[0])):
+                    try:
+                        outs[name] = abstract_value(fn(), sj.reg)
+                    except Exception as e:  # noqa: BLE001
+                        outs[name] = ["exc", type(e).__name__]
+                ref = outs["BasicEncoder"]
+                for name, o in outs.items():
+                    if not terms_equal(o, ref):
+                        rep.violation("entry-points-disagree", {"T": T, "input": p[2], "expected": ref, "actual": o, "entry": name,
+                                                                "replay_module": "harness.checks.sys_props", "prop": "C15"})
+                if ref[0] != "exc" and not wire_match(canon(p[3]), ref):
+                    pass        # the reference wire form is C02/C11's business; here only agreement between entry points is judged
+            else:
+                d = concretize_value(p[2], sj.reg)
+                outs = {}
+                for name, fn in (("one-shot decode()", lambda: oneshot_decode(d, sj.ann)),
+                                 ("BasicDecoder", lambda: BasicDecoder(sj.ann).decode(d)),
+                                 ("BasicDecoder(List[T])[0]", lambda: BasicDecoder(list[sj.ann]).decode([d])[0])):
+                    try:
+                        outs[name] = ["ok", abstract_value(fn(), sj.reg)]
+                    except Exception as e:  # noqa: BLE001
+                        outs[name] = ["err"]
+                ref = outs["BasicDecoder"]
+                for name, o in outs.items():
+                    if not terms_equal(o, ref):
+                        rep.violation("entry-points-disagree", {"T": T, "input": p[2], "expected": ref, "actual": o, "entry": name,
+                                                                "replay_module": "harness.checks.sys_props", "prop": "C15"})
+    finally:
+        for sj in subjects.values():
+            sj.close()
+    rep.count(n)
+    rep.cov["traces_validated_against_impl"] += n
+    rep.sample({"part": "one-shot / codec object / elementwise agreement", "shapes": len(subjects), "cases": n})
 
 
 def finish(rep):
@@ -93,6 +159,18 @@ def replay(rec, path):
     ev = rec["event"]
     key = (ev[1], ev[2], ev[3], ev[4] if len(ev) > 4 else "dict", ev[5] if len(ev) > 5 else "none")
     t.args = {key: rec.get("arg")}
+    if rec["clause"] == "entry-points-disagree":
+        from harness.report import Report
+        rp = Report("C15", "thorough", 1)
+        rp.known = []
+        oneshot_entry_points(rp, "thorough", tlc.scratch())
+        hit = [v for v in rp.violations if v["T"] == rec["T"] and v["input"] == rec["input"]]
+        if hit:
+            print("observed now:", json.dumps(hit[0]["actual"])[:300])
+            print(f"VIOLATION property=C15 replay={path}")
+            return 1
+        print("no longer reproduces on the current tree")
+        return 0
     if rec["clause"] == "twin":
         t.twins = {key: tb["twins"][jkey(list(key))]}
         t.calls = {key: rec["expected"]}
